@@ -223,6 +223,9 @@ func c14Buffered(c *Ctx) {
 	// ---- the vacated slot is cleared (slots outside the live window stay zero)
 	b.checkVacate(rem, p.Func("ring", "Buffered.Front"))
 
+	// ---- Range follows the count
+	b.checkRangeCount(p.Func("ring", "Buffered.Range"))
+
 	// ---- growth increment >= 1
 	b.checkGrowth(app)
 
